@@ -5,7 +5,7 @@ EXTENDS ExtendCmd
 CONSTANTS MaxIn
 TWOBODY == 100
 COSMIC  == 101
-RX(r, p, rn, pn, tmin, tmax, ty) == [r |-> r, p |-> p, rn |-> rn, pn |-> pn, tmin |-> tmin, tmax |-> tmax, ty |-> ty, idx |-> -1]
+RX(r, p, rn, pn, tmin, tmax, ty) == [r |-> r, p |-> p, rn |-> rn, pn |-> pn, tmin |-> tmin, tmax |-> tmax, ty |-> ty, tn |-> ty, idx |-> -1]
 Base ==
   << RX(<<1, 1>>, <<2>>, <<4, 4>>, <<5>>, -10, -10, TWOBODY),
      RX(<<1, 1>>, <<2>>, <<4, 4>>, <<5>>, 100, 1000, TWOBODY),
